@@ -39,13 +39,15 @@ impl Prop for C17 {
             if n % 60 == 0 {
                 db = FrontCfg::default_cfg().new_db(Plugins::Default);
             }
-            let case = execs::pick_case(ch, &snippets, 7, 5);
             let cfg = if ch.bool() { FrontCfg::default_cfg() } else { FrontCfg::generate(ch) };
-            let meta = if case.source.len() < 2500 && ch.chance(1, 2) { MetaCfg { linear_gas: true, linear_ap: false } } else { MetaCfg::linear() };
+            let solver_choice = ch.below(6);
+            let sweep_seed: Vec<u32> = (0..40).map(|_| ch.next()).collect();
+            let case = execs::pick_case(ch, &snippets, 7, 5);
+            let meta = if case.source.len() < 2500 && solver_choice % 2 == 0 { MetaCfg { linear_gas: true, linear_ap: false } } else { MetaCfg::linear() };
             let src_hash = hash_str(&case.source);
             let mut layout_cache: Option<Result<trace::Layout, String>> = None;
             let mut sampled = false;
-            execs::drive(cc, ch, &mut db, &case, &cfg, meta, 0, &mut |cc, c, f, args, _gas, r| {
+            execs::drive(cc, &mut Choices::new(sweep_seed.clone()), &mut db, &case, &cfg, meta, 0, &mut |cc, c, f, args, _gas, r| {
                 let Ok(e) = r else { return None };
                 if layout_cache.is_none() {
                     layout_cache = Some(trace::check_layout(c));
